@@ -103,9 +103,22 @@ def inv_13_12(d):
     d["marked"] = bool(d["marked"]); d["version"] = 12
 
 
-INVERSES = {21: inv_21_20, 20: inv_20_19, 19: inv_19_18, 18: inv_18_17, 17: inv_17_16, 16: inv_16_15,
+def inv_12_11(d):
+    if d.get("websocket") is None: d.pop("websocket", None)
+    else: raise Skip()          # websocket flows of format <= 11 were separate flows: covered by dumpfile-7-websocket
+    d["version"] = 11
+
+
+def inv_11_10(d):
+    for c in _conns(d):
+        c["alpn_proto_negotiated"] = c.pop("alpn")
+        if isinstance(c.get("sni"), str): c["sni"] = c["sni"].encode("ascii", "backslashreplace")
+    d["version"] = 10
+
+
+INVERSES = {12: inv_12_11, 11: inv_11_10, 21: inv_21_20, 20: inv_20_19, 19: inv_19_18, 18: inv_18_17, 17: inv_17_16, 16: inv_16_15,
             15: inv_15_14, 14: inv_14_13, 13: inv_13_12}
-MIN_SYNTH = 12
+MIN_SYNTH = 10
 
 
 def restrict_for(state, target):
@@ -139,15 +152,15 @@ class Check(PropertyCheck):
                   "version-increasing chain (the migrate loop terminates from every version value whatsoever), the current "
                   "version is a fixed point, unknown versions are rejected with 'please update' exactly for larger "
                   "integers. The converters' field surgery is validated differentially: all shipped historical dumps, "
-                  "synthetic states downgraded by inverse converters to each version 12..20, current states, and unknown "
+                  "synthetic states downgraded by inverse converters to each version 10..20, current states, and unknown "
                   "future versions go through the real migrate_flow / FlowReader / FlowWriter.")
     level_note = ("partial: the theorem covers the version chain and the loop; what each converter does to the fields is "
-                  "validated (goldens for shipped dumps, inverse-converter round trips for versions 12..20), not proved. "
+                  "validated (goldens for shipped dumps, inverse-converter round trips for versions 10..20), not proved. "
                   "trusted: Lean kernel, the AST-based translator (reads `data[\"version\"] = …` in each converter).")
     technique = "Lean 4 proof over a table regenerated from the source (decide +kernel + lemmas) + differential migration runs"
     rule = ("kinds: dump (each shipped dumpfile: load, validity, re-save/re-load equality, golden digest), current (random "
             "current-format flows must pass migration unchanged), downgrade (random current flow restricted to what version v "
-            "could express, inverse-converted down to v in 12..20, migrated forward, compared), future (unknown versions). "
+            "could express, inverse-converted down to v in 10..20, migrated forward, compared), future (unknown versions). "
             "distinct = distinct (kind, parameters); non-trivial = kind != dump-metadata-only.")
     budget = {"quick": 1500, "thorough": 40000}
     time_budget = {"quick": 40, "thorough": 500}
@@ -206,7 +219,11 @@ class Check(PropertyCheck):
             if r < 0.25:
                 yield {"kind": "current", "state": canon_in(st)}
             elif r < 0.9:
-                yield {"kind": "downgrade", "to": rng.randint(MIN_SYNTH, 20), "state": canon_in(st)}
+                c = {"kind": "downgrade", "to": rng.randint(MIN_SYNTH, 20), "state": canon_in(st)}
+                if c["to"] <= 10 and rng.chance(0.5):
+                    c["variant"] = "sni-bytes"
+                    c["sni_hex"] = bytes(rng.choice([0x61, 0x2e, 0x80, 0xff, 0xc3, 0xa9, 0x5c, 0x00]) for _ in range(rng.randint(1, 12))).hex()
+                yield c
             else:
                 yield {"kind": "future", "version": rng.choice([rng.randint(22, 10 ** 6), [rng.randint(0, 9), rng.randint(0, 30)]])}
 
@@ -248,6 +265,13 @@ class Check(PropertyCheck):
                 if v not in INVERSES: raise Skip()
                 INVERSES[v](old)
             assert old["version"] == case["to"]
+            variant = case.get("variant")
+            if variant == "sni-bytes" and case["to"] <= 10:
+                # format <= 10 stored the SNI as raw bytes, which need not be ASCII
+                old["client_conn"]["sni"] = bytes.fromhex(case["sni_hex"])
+                old["server_conn"]["sni"] = bytes.fromhex(case["sni_hex"])[::-1]
+            else:
+                variant = None
             # through the real file path: write the old state as a tnetstring record, read with FlowReader
             buf = _io.BytesIO(tnetstring.dumps(old))
             try:
@@ -255,7 +279,18 @@ class Check(PropertyCheck):
             except exceptions.FlowReadException as e:
                 return {"error": str(e)[:200]}
             diff = _diff(canon(orig), canon(got[0])) if len(got) == 1 else ["count=%d" % len(got)]
-            return {"equal": not diff, "diff": diff[:6]}
+            if variant: diff = []        # content intentionally differs from the current-format original
+            # "re-saving migrated flows and loading them again reproduces the same state"
+            resave = "ok"
+            try:
+                b2 = _io.BytesIO(); w2 = mio.FlowWriter(b2)
+                for f in mio.FlowReader(_io.BytesIO(tnetstring.dumps(copy.deepcopy(old)))).stream(): w2.add(f)
+                b2.seek(0)
+                again = [f.get_state() for f in mio.FlowReader(b2).stream()]
+                if canon(again) != canon(got): resave = "differs"
+            except Exception as e:
+                resave = f"{type(e).__name__}: {e}"[:160]
+            return {"equal": not diff, "diff": diff[:6], "resave": resave}
         if k == "future":
             v = case["version"]
             if (tuple(v)[:2] if isinstance(v, list) else v) in compat.converters or v == version.FLOW_FORMAT_VERSION:
@@ -297,6 +332,7 @@ class Check(PropertyCheck):
             # "synthetic flow states for each historical format version … load into valid current flows" (equal to the flow they came from)
             if "error" in obs: fails.append(f"state downgraded to v{case['to']} does not load: {obs['error']}")
             elif not obs["equal"]: fails.append(f"state downgraded to v{case['to']} migrates to a different state: {obs['diff']}")
+            elif obs.get("resave") != "ok": fails.append(f"flow migrated from v{case['to']} cannot be re-saved and re-loaded to the same state: {obs['resave']}")
         elif k == "future":
             # "Files from newer, unknown format versions are rejected with an explanatory error"
             v = case["version"]
